@@ -97,11 +97,21 @@ void RetireList<T, D>::retire(T* data) {
       delete_list(head);
       return;
     }
+    // head was replaced meanwhile: take a fresh timestamp, see below
+    timestamp = get_current_timestamp();
+    new_head = make_head(node, timestamp);
   }
-  do {
+  while (true) {
     node->next = get_node(head);
-  } while (!_head.compare_exchange_weak(head, new_head,
-                                        ::std::memory_order_acq_rel));
+    if (_head.compare_exchange_weak(head, new_head,
+                                    ::std::memory_order_acq_rel)) {
+      break;
+    }
+    // the list now holds nodes retired after our clock was read; the head
+    // timestamp covers the whole list, so it must not be older than theirs
+    timestamp = get_current_timestamp();
+    new_head = make_head(node, timestamp);
+  }
 }
 
 template <typename T, typename D>
